@@ -241,6 +241,64 @@ def instances():
     T("c04_predicate_validity_retain_n8", "c04::predicate_time_validity::<8>(false)", 8, be=G8, props=("C04",))
     T("c04_predicate_validity_extract_n8", "c04::predicate_time_validity::<8>(true)", 8, be=G8, props=("C04",))
     T("c04_replace_entry_validity_n8", "c04::replace_entry_with_validity::<8>()", 8, be=G8, props=("C04", "C14"))
+    # ------------------------------------------------------------------ C07 HashSet algebra
+    for op, on in enumerate(("union", "intersection", "difference", "symdiff")):
+        T("c07_%s_n4_n4" % on, "c07::algebra::<4, 4>(2, 3, %d)" % op, 4, be=G8, props=("C07",))
+        T("c07_%s_n4_n4_rev" % on, "c07::algebra::<4, 4>(3, 1, %d)" % op, 4, be=G8, props=("C07",))
+        T("c07_%s_n8_n8" % on, "c07::algebra::<8, 8>(3, 2, %d)" % op, 8, props=("C07",), be=S16 if op in (0, 1) else G8, tier="quick" if op in (0, 3) else "thorough", timeout=1800)
+    T("c07_predicates_n4_n4", "c07::predicates::<4, 4>()", 4, be=G8, props=("C07", "C11"), covers="some")
+    T("c07_predicates_n8_n4", "c07::predicates::<8, 4>()", 8, be=G8, props=("C07", "C11"), covers="some")
+    T("c07_predicates_n8_n8", "c07::predicates::<8, 8>()", 8, be=S16, props=("C07", "C11"), covers="some")
+    for op, on in enumerate(("or", "and", "xor", "sub")):
+        T("c07_assign_%s_n8_n4" % on, "c07::assign_ops::<8, 4>(2, 3, %d)" % op, 8, be=G8, props=("C07",), timeout=1500)
+        T("c07_assign_%s_n8_n4_big" % on, "c07::assign_ops::<8, 4>(4, 2, %d)" % op, 8, be=G8, props=("C07",), timeout=1500, tier="quick" if op == 3 else "thorough")
+        T("c07_ref_%s_n4_n4" % on, "c07::ref_ops::<4, 4>(1, 1, %d)" % op, 8, n2=8, be=G8, props=("C07",), timeout=1800, tier="thorough")
+    for op, on in enumerate(("insert", "replace", "take", "get_or_insert", "get_or_insert_with", "remove", "get_or_insert_with_nonequiv", "entry", "contains")):
+        T("c07_elem_%s_n8" % on, "c07::elem_ops::<8, 8>(3, 0, %d)" % op, 8, items=3, be=BOTH if op in (1, 3) else G8, props=("C07",) + (("C14",) if on == "entry" else ()),
+          allow_fail=["new value is not equivalent"] if op == 6 else [])
+    T("c07_elem_replace_n4_full", "c07::elem_ops::<4, 8>(3, 0, 1)", 4, n2=8, items=3, be=G8, props=("C07",))
+    # ------------------------------------------------------------------ C11 clone / clone_from / ==
+    T("c11_clone_n8", "c11::clone_step::<8>(true)", 8, props=("C11", "C03"))
+    T("c11_clone_n8_src_mut", "c11::clone_step::<8>(false)", 8, be=G8, props=("C11", "C03"))
+    T("c11_clone_n16", "c11::clone_step::<16>(true)", 16, be=G8, props=("C11",), timeout=1800)
+    for (nt, ns) in ((8, 8), (8, 4), (4, 8), (8, 1), (16, 8)):
+        T("c11_clone_from_%d_%d" % (nt, ns), "c11::clone_from_step::<%d, %d>()" % (nt, ns), max(nt, ns), be=G8, props=("C11", "C03"), timeout=1800)
+    T("c11_map_eq_n4_n8", "c11::map_eq::<4, 8>()", 8, be=G8, props=("C11",), covers="some")
+    T("c11_map_eq_n8_n8", "c11::map_eq::<8, 8>()", 8, be=S16, props=("C11",), covers="some")
+    T("c11_map_eq_n16_n8", "c11::map_eq::<16, 8>()", 16, be=G8, props=("C11",), covers="some", timeout=1800)
+    # ------------------------------------------------------------------ C14 entry APIs
+    T("c14_raw_entry_ro_n8", "c14::raw_entry_ro::<8>()", 8, props=("C14",))
+    for form, fn_ in enumerate(("or_insert", "nocheck_insert", "from_hash_insert_hashed", "insert_with_hasher", "remove_entry", "insert_key", "and_replace", "vacant_dropped")):
+        T("c14_raw_mut_%s_n8" % fn_, "c14::raw_entry_mut::<8, 8>(4, 0, %d)" % form, 8, items=4, be=G8, props=("C14",))
+    T("c14_raw_mut_or_insert_n4_full", "c14::raw_entry_mut::<4, 8>(3, 0, 0)", 4, n2=8, items=3, be=G8, props=("C14",), covers="some")
+    T("c14_raw_mut_insert_hashed_n4_full", "c14::raw_entry_mut::<4, 8>(3, 0, 2)", 4, n2=8, items=3, be=G8, props=("C14",), covers="some")
+    T("c14_raw_mut_with_hasher_n4_full", "c14::raw_entry_mut::<4, 8>(3, 0, 3)", 4, n2=8, items=3, be=G8, props=("C14",), covers="some")
+    for form, fn_ in enumerate(("or_insert", "insert", "remove", "unused", "insert_entry", "and_modify_or_default")):
+        T("c14_rustc_%s_n8" % fn_, "c14::rustc_entry::<8, 8>(4, 0, %d)" % form, 8, items=4, be=G8 if form else BOTH, props=("C14",))
+    T("c14_rustc_or_insert_n4_full", "c14::rustc_entry::<4, 8>(3, 0, 0)", 4, n2=8, items=3, be=G8, props=("C14",))
+    T("c14_rustc_unused_n4_full", "c14::rustc_entry::<4, 8>(3, 0, 3)", 4, n2=8, items=3, be=G8, props=("C14",))
+    for form, fn_ in enumerate(("remove", "remove_entry", "replace_entry_with", "and_replace_entry_with", "vacant_unused")):
+        T("c14_map_occ_%s_n8" % fn_, "c14::map_entry_occ::<8>(%d)" % form, 8, be=G8, props=("C14", "C01"))
+    T("c14_map_occ_replace_n16", "c14::map_entry_occ::<16>(2)", 16, be=G8, props=("C14",), timeout=1800)
+    # ------------------------------------------------------------------ C19 rayon (sequential core)
+    T("c19_range_split_n16", "c19::range_split::<16>()", 16, be=G8, props=("C19",), covers="some")
+    T("c19_range_split_n32", "c19::range_split::<32>()", 32, props=("C19",), covers="some", timeout=1800)
+    T("c19_range_split_n64", "c19::range_split::<64>()", 64, be=S16, props=("C19",), covers="some", tier="thorough", timeout=7200)
+    T("c19_range_split_n8", "c19::range_split::<8>()", 8, be=G8, props=("C19",), covers="some")
+    T("c19_par_iter_producer_n16", "c19::par_iter_producer::<16>()", 16, be=G8, props=("C19",))
+    T("c19_par_iter_producer_n32", "c19::par_iter_producer::<32>()", 32, be=S16, props=("C19",), timeout=1800)
+    T("c19_par_drain_producer_n16", "c19::par_drain_producer::<16>()", 16, be=G8, props=("C19", "C03"), covers="some", timeout=1800)
+    T("c19_par_drain_producer_n8", "c19::par_drain_producer::<8>()", 8, be=G8, props=("C19", "C03"), covers="some")
+    # ------------------------------------------------------------------ C20 serde
+    for w, wn in enumerate(("map", "set", "set_in_place")):
+        T("c20_hint_bounded_%s" % wn, "c20::hint_bounded(%d)" % w, 8, props=("C20",), bounds="all 2^64 claimed lengths incl. None")
+    T("c20_map_entries_1", "c20::map_entries::<1>()", 4, n2=8, items=1, be=G8, props=("C20",), covers="some")
+    T("c20_map_entries_2", "c20::map_entries::<2>()", 4, n2=8, items=2, be=G8, props=("C20",), timeout=1800)
+    T("c20_map_entries_3", "c20::map_entries::<3>()", 4, n2=8, items=3, be=G8, props=("C20",), timeout=7200, tier="thorough")
+    T("c20_set_in_place_n8_1", "c20::set_in_place::<8, 1>()", 8, be=G8, props=("C20",), covers="some")
+    T("c20_set_in_place_n8_2", "c20::set_in_place::<8, 2>()", 8, be=G8, props=("C20",), covers="some", timeout=1800, tier="thorough")
+    T("c20_serialize_map_n8", "c20::serialize_emits_all::<8>(false)", 8, props=("C20",))
+    T("c20_serialize_set_n8", "c20::serialize_emits_all::<8>(true)", 8, be=G8, props=("C20",))
     return L
 
 
